@@ -42,6 +42,11 @@ func (*Sorter).less
 func (*DataProcessor).applyHavingWithCondition
   props C07
   modifies *
+  count tested := Evaluate
+  observe cerr := NewExprCondition#1
+  ensures every-group-of-the-batch-is-tested-against-having: $cerr == nil ==> $tested == len(results)
+  ensures an-unusable-having-filters-nothing: $cerr != nil ==> seqeq(result, results)
+  loop 1 invariant $tested == $i && $cerr == nil
   loop 1 invariant len(filteredResults) <= $i && forall(j, 0, len(filteredResults), exists(k, 0, $i, filteredResults[j] == $s[k]))
 
 extern (*Stream).projectGroupColumns
